@@ -193,15 +193,25 @@ def _record(ev):
     return c
 
 
+def _scribble(x):
+    """Hostile user function: overwrite the array it was given (if it can)."""
+    if isinstance(x, np.ndarray) and x.flags.writeable:
+        try:
+            x[...] = 1e30
+        except (ValueError, TypeError):
+            pass
+
+
 class ObjectiveSpy:
     """Objective wrapper.  ``__name__`` deliberately absent on instances is
     fine for cobyqa (falls back to 'fun')."""
 
-    def __init__(self, base, faults=(), nargs=0):
+    def __init__(self, base, faults=(), nargs=0, scribble=False):
         self.base = base
         self.faults = list(faults)
         self.calls = 0
         self.nargs = nargs
+        self.scribble = scribble
 
     def __call__(self, x, *args):
         x = np.asarray(x)
@@ -217,6 +227,8 @@ class ObjectiveSpy:
         v = _apply_faults(self.faults, idx, x, v)
         ev["v"] = v
         ev["done"] = True
+        if self.scribble:
+            _scribble(x)
         return v
 
 
@@ -231,6 +243,7 @@ class ConstraintSpy:
         # the extra arguments the USER stated for this function (dict
         # constraints); the value "as the user stated it" uses these
         self.expected_args = tuple(float(a) for a in expected_args)
+        self.scribble = False
 
     def __call__(self, x, *args):
         x = np.asarray(x)
@@ -259,6 +272,8 @@ class ConstraintSpy:
             ev["args_got"] = got
             ev["args_stated"] = self.expected_args
         ev["done"] = True
+        if self.scribble:
+            _scribble(x)
         if self.scalar and v.size == 1:
             return float(v[0])
         return v
@@ -369,7 +384,8 @@ def build(spec, readonly=False):
     else:
         b.obj_spy = ObjectiveSpy(
             base_objective(o, n),
-            [f for f in faults if f["target"] == "obj"])
+            [f for f in faults if f["target"] == "obj"],
+            scribble=bool(spec.get("scribble")))
         b.fun = b.obj_spy
     b.args = tuple(spec.get("args", ()))
     b.x0 = arr(spec["x0"])
@@ -417,6 +433,7 @@ def build(spec, readonly=False):
             scalar=nc.get("scalar", False),
             expected_args=nc.get("cargs", ()) if nc.get("form", "nlc") != "nlc"
             else ())
+        spy.scribble = bool(spec.get("scribble"))
         b.con_spies.append(spy)
         form = nc.get("form", "nlc")
         m = len(comps)
